@@ -33,8 +33,8 @@ prop("C01", NEC + "Clauses: positions handed to TokenChange queries are absolute
      "reuse unit, or the unit refuses reuse of nodes that reported outward (ERROR-OWNER).",
      [{"rule": "TOKCHANGE-ARGS", "floor": 4}, {"rule": "REBUILD", "floor": 14}, {"rule": "STRIP-SET", "floor": 4},
       {"rule": "SAVE-RESTORE", "floor": 4}, {"rule": "EQ-COMPLETE", "floor": 43},
-      {"rule": "TRAVERSE", "filter": tag("traverse"), "floor": 106},
-      {"rule": "TOKEN-ERRORS", "floor": 2}, {"rule": "TABLES", "filter": tag("T2"), "floor": 17},
+      {"rule": "TRAVERSE", "filter": tag("traverse", "binops"), "floor": 110},
+      {"rule": "TOKEN-ERRORS", "floor": 2}, {"rule": "TABLES", "filter": tag("T2"), "floor": 18},
       {"rule": "UPDATE-ORDER", "floor": 3}, {"rule": "RELEX-WINDOW", "floor": 8}, {"rule": "STRIP-REBUILD", "floor": 2},
       {"rule": "COMMENT-LEX", "floor": 5}, {"rule": "TEXT-SYNC", "filter": tag("batch"), "floor": 4}, {"rule": "REUSE", "floor": 14},
       {"rule": "ERROR-OWNER", "floor": 20}])
@@ -57,59 +57,67 @@ prop("C03", NEC + "Clauses: each of the 27 build/semantic message kinds has an e
      "lib.rs); every ErrorContainer impl descends into every child that can hold an AstInfo (TRAVERSE); type equality "
      "used by the checker compares every field incl. the array creator (EQ-COMPLETE: SPL name equivalence); type expressions of type "
      "declarations and parameters are resolved in the global scope, those of local variables in the procedure scope (SCOPE-ORDER typescope); "
-     "names used in a procedure body are resolved through the scoped LookupTable, never directly against the global table.",
+     "names used in a procedure body are resolved through the scoped LookupTable, never directly against the global table; a match "
+     "whose fall-through arm reports `not a <kind>` takes every value of that kind in the arms above (NOT-A-KIND: no cascaded diagnostic).",
      [{"rule": "VARIANTS", "floor": 54}, {"rule": "MESSAGE-SITE", "floor": 32},
       {"rule": "FRAME", "filter": files(*FRONT_FRAME), "floor": 212},
       {"rule": "TRAVERSE", "filter": tag("errors", "analyze", "build"), "floor": 73}, {"rule": "EQ-COMPLETE", "floor": 43},
-      {"rule": "SCOPE-ORDER", "filter": tag("typescope", "semantic"), "floor": 5}])
+      {"rule": "SCOPE-ORDER", "filter": tag("typescope", "semantic"), "floor": 5}, {"rule": "NOT-A-KIND", "floor": 3}])
 
 prop("C04", NEC + "Clauses: shape of the precedence-climbing parser (levels, loops, operand parsers, else binding) "
      "and agreement of parser levels with the operator classification used by the type checker (T5); raw token "
      "consumption only inside the comment-skipping token parsers; doc comments are consumed inside the node's info(..) range "
      "(DOC-IN-RANGE); a rebuilt Reference carries the sum of the offsets it unwraps (FRAME S-ref in parser.rs / parser/utility.rs); "
-     "a range used as the prefix another node is extended with does not itself cover a repetition (INFO-EXTENT: nested array accesses).",
+     "a range used as the prefix another node is extended with does not itself cover a repetition (INFO-EXTENT: nested array accesses); "
+     "the recovery sets contain every token that starts a statement, so recovery never eats the beginning of a valid construct (SYNC-SETS).",
      [{"rule": "PARSE-SHAPE", "floor": 18}, {"rule": "TABLES", "filter": tag("T5"), "floor": 23},
       {"rule": "NOCONSUME", "filter": tag("take"), "floor": 4}, {"rule": "DOC-IN-RANGE", "floor": 5},
-      {"rule": "FRAME", "filter": files("parser.rs", "utility.rs"), "floor": 3}, {"rule": "INFO-EXTENT", "floor": 1}])
+      {"rule": "FRAME", "filter": files("parser.rs", "utility.rs"), "floor": 3}, {"rule": "INFO-EXTENT", "floor": 1},
+      {"rule": "SYNC-SETS", "floor": 14}])
 
 prop("C05", NEC + "Clauses: the five synchronisation sets are nested and all contain proc/type/eof, each error "
      "variant recovers with its own set (SYNC-SETS); failed token parsers and expect() hand back the original "
      "input, and so do the five recovery parsers when they find nothing to ignore; declaration keywords are consumed only at declaration level (NOCONSUME).",
-     [{"rule": "SYNC-SETS", "floor": 10}, {"rule": "NOCONSUME", "filter": tag("tag", "expect", "kw", "recover"), "floor": 45}])
+     [{"rule": "SYNC-SETS", "floor": 14}, {"rule": "NOCONSUME", "filter": tag("tag", "expect", "kw", "recover"), "floor": 45}])
 
 prop("C06", NEC + "Clauses: alt(..) order vs. prefix relation of static lexemes (longest match), every static token "
      "lexed exactly once through the macro of its class, class order, exactly one Eof; token ranges are the ranges of the "
      "consumed input (TOKEN-RANGE-SOURCE); the keyword boundary test uses the identifier continuation class (KEYWORD-BOUNDARY); "
      "the comment lexer's text class stops exactly at a line feed and cannot fail, its closer accepts the line feed and the end of "
      "the text (COMMENT-LEX); the Span the tokens take their ranges from is built over the text as handed in, and batch and "
-     "incremental lexer skip the same separator class (RELEX-WINDOW lexinput).",
+     "incremental lexer skip the same separator class (RELEX-WINDOW lexinput); lexeme bodies are matched by unbounded repetitions and "
+     "token payloads are input text, not assembled strings (LEX-MUNCH).",
      [{"rule": "TABLES", "filter": tag("T1", "T3"), "floor": 37}, {"rule": "EOF-ONCE", "floor": 3},
-      {"rule": "TOKEN-RANGE-SOURCE", "floor": 11}, {"rule": "KEYWORD-BOUNDARY", "floor": 2}, {"rule": "COMMENT-LEX", "floor": 5},
-      {"rule": "RELEX-WINDOW", "filter": tag("lexinput"), "floor": 2}])
+      {"rule": "TOKEN-RANGE-SOURCE", "floor": 11}, {"rule": "KEYWORD-BOUNDARY", "floor": 3}, {"rule": "COMMENT-LEX", "floor": 5},
+      {"rule": "RELEX-WINDOW", "filter": tag("lexinput"), "floor": 2}, {"rule": "LEX-MUNCH", "floor": 14}])
 
 prop("C07", NEC + "Clauses: a token relocated to a new range relocates its lexical errors too (TOKEN-ERRORS); the "
      "look-ahead table covers every lexeme that a following character can extend (T2); byte, char and UTF-16 lengths "
      "are not mixed in the shift arithmetic (LEN-UNITS); re-lexed tokens are shifted by the offset the text was cut at and the "
      "change window is computed from head/new/tail lengths, result = head ++ new ++ tail ++ eof (RELEX-WINDOW); a comment that "
      "can end with the text is re-lexed when text is appended behind it (COMMENT-LEX).",
-     [{"rule": "TOKEN-ERRORS", "floor": 2}, {"rule": "TABLES", "filter": tag("T2"), "floor": 17},
+     [{"rule": "TOKEN-ERRORS", "floor": 2}, {"rule": "TABLES", "filter": tag("T2"), "floor": 18},
       {"rule": "LEN-UNITS", "filter": tag("arith"), "floor": 1}, {"rule": "RELEX-WINDOW", "floor": 8}, {"rule": "COMMENT-LEX", "floor": 5}])
 
 prop("C08", NEC + "Clauses: no content change is discarded, batched changes are converted against the advanced "
      "temporary text and applied to it, LSP columns advance by UTF-16 code units; lengths of different units are not mixed; "
      "client positions are interpreted only by get_insertion_index and positions sent out come only from as_position (POS-CONV); "
      "the scan for a client position has an exit that depends on the line alone (a column behind the end of a line is clamped to it); "
-     "no byte distance is computed from terminator-stripped lines.",
-     [{"rule": "TEXT-SYNC", "floor": 15}, {"rule": "LEN-UNITS", "floor": 3}, {"rule": "POS-CONV", "floor": 22}])
+     "no byte distance is computed from terminator-stripped lines; the changes of a notification are applied in the order they were "
+     "converted in (UPDATE-ORDER).",
+     [{"rule": "TEXT-SYNC", "floor": 15}, {"rule": "LEN-UNITS", "floor": 3}, {"rule": "POS-CONV", "floor": 22},
+      {"rule": "UPDATE-ORDER", "floor": 3}])
 
 prop("C09", NEC + "Clauses: operators are re-printed as the lexeme they were lexed from (T4); every Format impl prints "
      "every child that holds an identifier, literal or operator and every Error variant (TRAVERSE); every token slice "
      "handed down is re-based exactly when a Reference is crossed (FRAME in formatting.rs); the edit covers the whole "
      "document (FMT-PURE); character literals are printed only with escapes the lexer knows (CHAR-ESCAPES); the first token of a "
-     "node's slice is never taken for the node's own token, the slice may start with comments (SLICE-FIRST).",
+     "node's slice is never taken for the node's own token, the slice may start with comments (SLICE-FIRST); literals are printed from "
+     "kind and payload, so the lexer stores input text as payload, never an assembled string (LEX-MUNCH payload).",
      [{"rule": "TABLES", "filter": tag("T4"), "floor": 20}, {"rule": "TRAVERSE", "filter": tag("format"), "floor": 43},
       {"rule": "FRAME", "filter": files("formatting.rs"), "floor": 63}, {"rule": "FMT-PURE", "floor": 5},
-      {"rule": "CHAR-ESCAPES", "floor": 2}, {"rule": "SLICE-FIRST", "floor": 20}])
+      {"rule": "CHAR-ESCAPES", "floor": 2}, {"rule": "SLICE-FIRST", "floor": 20},
+      {"rule": "LEX-MUNCH", "filter": tag("payload"), "floor": 6}])
 
 prop("C10", NEC + "Clause: a composite node whose parser skips comments in front of several own tokens must re-attach all "
      "comments of its slice (COMMENT-PAIRING). Six composite Format impls violate it on the pinned tree (known findings). A comment must first of all be a comment token: "
@@ -160,7 +168,7 @@ prop("C15", NEC + "Clauses: legend order = enum discriminants (T6); token positi
      "compared and declaration slices are cut in the right frame (FRAME in semantic_tokens.rs); token lengths are UTF-16 "
      "(LEN-UNITS); the delta base advances exactly when a token is emitted (SEMTOK-PAIRING); identifiers inside a procedure are "
      "classified through the local-then-global LookupTable (SCOPE-ORDER)." + PARSER_REF,
-     [{"rule": "TABLES-SEMTOK", "floor": 11}, {"rule": "FRAME", "filter": files("semantic_tokens.rs"), "floor": 7},
+     [{"rule": "TABLES-SEMTOK", "floor": 24}, {"rule": "FRAME", "filter": files("semantic_tokens.rs"), "floor": 7},
       {"rule": "LEN-UNITS", "filter": tag("lsp"), "floor": 1}, {"rule": "SEMTOK-PAIRING", "floor": 6},
       {"rule": "SCOPE-ORDER", "floor": 18}, {"rule": "FRAME", "filter": files("parser.rs", "utility.rs"), "floor": 3}])
 
@@ -176,24 +184,27 @@ prop("C17", NEC + "Clause: the procedure's token range is made absolute with the
      "through before the token vector is sliced (FRAME in fold.rs); the lines reported come from as_pos_range of the "
      "procedure's byte range (POS-CONV); exactly the Procedure declarations are kept, each mapped 1:1, nothing removed "
      "afterwards (ONE-PER-ITEM); the document the ranges are computed from is the client's: batched changes are converted and "
-     "applied in the order sent (TEXT-SYNC batch, UPDATE-ORDER)." + PARSER_REF,
+     "applied in the order sent (TEXT-SYNC batch, UPDATE-ORDER); a procedure extends to the next `proc`/`type` *token*, so `proc` is a keyword "
+     "only as a whole word (KEYWORD-BOUNDARY)." + PARSER_REF,
      [{"rule": "FRAME", "filter": files("fold.rs"), "floor": 2}, {"rule": "POS-CONV", "floor": 22},
-      {"rule": "ONE-PER-ITEM", "floor": 3}, {"rule": "SLICE-FIRST", "floor": 20}, {"rule": "BSEARCH-MONO", "floor": 1}, {"rule": "TEXT-SYNC", "filter": tag("batch"), "floor": 4},
+      {"rule": "ONE-PER-ITEM", "floor": 3}, {"rule": "SLICE-FIRST", "floor": 20}, {"rule": "BSEARCH-MONO", "floor": 1},
+      {"rule": "KEYWORD-BOUNDARY", "floor": 3}, {"rule": "TEXT-SYNC", "filter": tag("batch"), "floor": 4},
       {"rule": "UPDATE-ORDER", "floor": 3}, {"rule": "FRAME", "filter": files("parser.rs", "utility.rs"), "floor": 3}])
 
 prop("C18", NEC + "Clauses: every path through every Request arm of the three phase loops splits the request, "
      "turns the PreparedResponse into exactly one Response and sends it; phase x situation -> error code table; "
      "exit handling per phase; senders released before the tasks are joined; end of input falls through to Ok(()); "
      "responses can only be built from the request's PreparedResponse; JSON-RPC error code numbers.",
-     [{"rule": "LIFECYCLE", "floor": 57}, {"rule": "WHO-MAY", "floor": 14}, {"rule": "TABLES-ERRCODE", "floor": 3},
+     [{"rule": "LIFECYCLE", "floor": 61}, {"rule": "WHO-MAY", "floor": 14}, {"rule": "TABLES-ERRCODE", "floor": 3},
       {"rule": "SEND-AWAIT", "floor": 11}])
 
 prop("C19", NEC + "Clauses: decode consumes nothing before its last `Ok(None)`, slices the body only behind the "
      "length guard and advances by exactly content_end; encode writes String::len() (bytes) of the body it writes; one "
      "FramedRead (and thus one read buffer) serves the whole session; what is published for a change does not depend on what else is "
-     "queued behind it (BROKER diag: publishing is guarded by the capability flag alone).",
+     "queued behind it (BROKER diag: publishing is guarded by the capability flag alone); the process is not terminated by process::exit "
+     "on the graceful path, where responses may still be queued for the writer task (WHO-MAY exit).",
      [{"rule": "CODEC", "floor": 7}, {"rule": "WHO-MAY", "filter": tag("framed"), "floor": 1},
-      {"rule": "BROKER", "filter": tag("diag"), "floor": 8}])
+      {"rule": "BROKER", "filter": tag("diag"), "floor": 8}, {"rule": "WHO-MAY", "filter": tag("exit"), "floor": 5}])
 
 prop("C20", NEC + "Clauses: diagnostics only under `if send_diagnostics`, once per Open/Change; Close removes; "
      "document map keyed by an injective function of the URI; no task spawned per request; every channel send is "
